@@ -12,6 +12,29 @@ struct Version {
     operations: Vec<SyncOp>,
 }
 
+/// Decode a history segment the way `sync` does, and encode operations the way `sync` does
+/// (verification hook; errors are returned where `sync` would panic).
+#[cfg(gothenburgbitfactory_taskchampion_verif)]
+pub(crate) fn verif_decode(history_segment: &[u8]) -> Result<Vec<crate::Operation>> {
+    let version_str = str::from_utf8(history_segment)
+        .map_err(|e| crate::errors::Error::Other(anyhow::anyhow!("utf8: {e}")))?;
+    let version: Version = serde_json::from_str(version_str)
+        .map_err(|e| crate::errors::Error::Other(anyhow::anyhow!("json: {e}")))?;
+    Ok(version
+        .operations
+        .into_iter()
+        .map(SyncOp::into_op)
+        .collect())
+}
+
+#[cfg(gothenburgbitfactory_taskchampion_verif)]
+pub(crate) fn verif_encode(ops: Vec<crate::Operation>) -> Vec<u8> {
+    let new_version = Version {
+        operations: ops.into_iter().filter_map(SyncOp::from_op).collect(),
+    };
+    serde_json::to_string(&new_version).unwrap().into()
+}
+
 /// Sync to the given server, pulling remote changes and pushing local changes.
 pub(super) async fn sync(
     server: &mut Box<dyn Server>,
